@@ -432,6 +432,14 @@ func runC16(ctx *core.Ctx, idx int) *core.Result {
 			patch = first + "\n@@\nvar n, y expression\n@@\n-var _ = tgtPair(n, y)\n+var n = y\n"
 			files[tgt].src += "\nvar _ = tgtPair(call(), 1)\n\nvar _ = tgtPair(other(), 2)\n"
 			expectFailFile, causeWords = files[tgt].name, []string{"cannot", "could not"}
+			// the change that fails on the target applies cleanly to every other file, before and after it
+			for i := range files {
+				if i != tgt {
+					files[i].src += fmt.Sprintf("\nvar _ = tgtPair(okv%d, 5)\n", i)
+					pristine[files[i].name] = files[i].src
+				}
+			}
+			pristinePatch = patch
 		case "missing-path-first":
 			// a path that cannot be enumerated comes first, good ones follow
 			preArgs = append(preArgs, "nonexistent_"+fmt.Sprint(tgt)+".go")
